@@ -48,7 +48,9 @@ class WireNcp(simncp.SimNcp):
             if len(payload) == 4 and payload[2] == 0x00 and payload[1] & 0x80 == 0:
                 self.requests.append((now, "legacy", "version", payload))
                 self.legacy_query_seen = True
-                if lay == "legacy":
+                if lay == "legacy" and payload[3] == (V & 0xFF):
+                    # the version is set only by a version command that names the NCP's own version (UG100: until then
+                    # every other command is refused with ERROR_VERSION_NOT_SET; here: ignored)
                     self.negotiated = True
                 resp = bytes([payload[0], 0x80, 0x00, V & 0xFF, 0x02, 0x23, 0x71])
                 self.last_resp_seq = payload[0]
@@ -116,6 +118,7 @@ class Stack:
         self.transport = None
         self.proto = None
         self.host_writes = []  # (time, bytes)
+        self.rx_raised = []  # (time, repr) exceptions that escaped the host's data_received()
 
         def ncp_write(data):
             self.line.n2h.write(data)
@@ -162,7 +165,10 @@ class Stack:
 
     def _to_host(self, data):
         if self.transport is not None and not self.transport.closed and self.proto is not None:
-            self.proto.data_received(data)
+            try:
+                self.proto.data_received(data)
+            except Exception as ex:  # a real transport would log it and close the connection
+                self.rx_raised.append((self.loop.time(), repr(ex)))
 
     def spontaneous_rstack(self, code=refash.RESET_SOFTWARE):
         """The NCP boots: it resets its own ASH/EZSP state and announces it."""
